@@ -105,7 +105,15 @@ func renderStmt(b *strings.Builder, s Stmt, d int) {
 		if s.Incl {
 			op = "..="
 		}
-		w("for %s in %s%s%s {", s.Var, wrapAtom(s.Lo), op, wrapAtom(s.Hi))
+		if s.Step != nil {
+			st := wrapAtom(s.Step)
+			if l, ok := s.Step.(*IntLit); ok && !l.Typed {
+				st = X(s.Step) // `3..=0:-1`
+			}
+			w("for %s in %s%s%s:%s {", s.Var, wrapAtom(s.Lo), op, wrapAtom(s.Hi), st)
+		} else {
+			w("for %s in %s%s%s {", s.Var, wrapAtom(s.Lo), op, wrapAtom(s.Hi))
+		}
 		renderBody(b, s.Body, d+1)
 		w("}")
 	case *ForIn:
